@@ -38,6 +38,7 @@ fn build(path: &str, is: &[Instruction]) -> Program {
 
 fn observe(path: &str, is: &[Instruction], pr: &mut Proj) -> Sexp {
     let p = build(path, is);
+    pr.check_map_keys(&p);
     let to = p.to_instructions();
     let into = p.clone().into_instructions();
     let rebuilt = Program::from_instructions(p.to_instructions());
@@ -101,6 +102,21 @@ fn run(ctx: &mut Ctx) {
              "DEFFRAME 0 1 \"cz\":\n\tHARDWARE-OBJECT: \"q0_q1\"", "DEFFRAME 0 \"rf\":\n\tINITIAL-FREQUENCY: 2000000000\n\tDIRECTION: \"tx\""],
         vec!["DEFGATE FOO:\n\t1, 0\n\t0, 1", "DEFWAVEFORM wf:\n\t1, 0.5, 0.25", "FOO 3", "DEFGATE FOO:\n\t0, 1\n\t1, 0", "DEFWAVEFORM wf:\n\t0.5i, 1"],
         vec!["PRAGMA EXTERNAL foo", "PRAGMA extern foo", "PRAGMA EXTERN foo"],
+        // PRAGMA EXTERN: the key is the first argument when it is an identifier, whatever follows
+        vec!["PRAGMA EXTERN foo legacy \"(c : REAL)\"", "PRAGMA EXTERN foo \"INTEGER (x : INTEGER)\""],
+        vec!["PRAGMA EXTERN foo legacy \"(c : REAL)\"", "PRAGMA EXTERN bar legacy \"(c : REAL)\""],
+        vec!["PRAGMA EXTERN foo \"INTEGER (x : INTEGER)\"", "PRAGMA EXTERN bar \"(y : mut INTEGER)\"", "PRAGMA EXTERN foo 1 \"INTEGER (x : INTEGER)\"",
+             "PRAGMA EXTERN 1 foo \"(c : REAL)\"", "PRAGMA EXTERN foo a b", "PRAGMA EXTERN", "PRAGMA EXTERN 1 2 3", "PRAGMA EXTERN baz 1 2", "PRAGMA EXTERN \"OCTET\"",
+             "PRAGMA EXTERN baz legacy \"(c : REAL)\"", "PRAGMA EXTERN foo legacy"],
+        // one key, values of different shapes, in every keyed container
+        vec!["DEFGATE FOO:\n\t1, 0\n\t0, 1", "DEFGATE BAR(%t):\n\tcos(%t), 0\n\t0, sin(%t)", "DEFGATE FOO(%t):\n\tcos(%t), 0\n\t0, sin(%t)",
+             "DEFGATE FOO AS PERMUTATION:\n\t1, 0", "DEFGATE FOO a AS SEQUENCE:\n\tX a", "DEFGATE FOO(%t) p q AS PAULI-SUM:\n\tZZ(-%t/4) p q\n\tY(%t/4) p"],
+        vec!["DEFWAVEFORM wf:\n\t1, 0.5, 0.25", "DEFWAVEFORM wg(%a):\n\t%a, 2*%a", "DEFWAVEFORM wf(%a, %b):\n\t%a, %b", "DEFWAVEFORM wf:\n\t1",
+             "DECLARE ro BIT[2]", "DECLARE theta REAL[1]", "DECLARE ro REAL[1]", "DECLARE oct OCTET[8]", "DECLARE ro BIT[8] SHARING oct OFFSET 1 BIT", "DECLARE ro INTEGER"],
+        vec!["DEFFRAME 0 \"rf\":\n\tINITIAL-FREQUENCY: 1000000000", "DEFFRAME 1 \"rf\":\n\tSAMPLE-RATE: 1000000000",
+             "DEFFRAME 0 \"rf\":\n\tDIRECTION: \"tx\"\n\tINITIAL-FREQUENCY: 1\n\tHARDWARE-OBJECT: \"h\"\n\tSAMPLE-RATE: 2", "DEFFRAME 0 \"rf\":\n\tCENTER-FREQUENCY: 3",
+             "DEFCIRCUIT BELL a b:\n\tH a\n\tCNOT a b", "DEFCIRCUIT ROT(%t) q:\n\tRX(%t) q", "DEFCIRCUIT BELL:\n\tX 0", "DEFCIRCUIT BELL(%a) q:\n\tRX(%a) q",
+             "DEFCIRCUIT BELL(%a, %b) a b c:\n\tRX(%a) a\n\tRZ(%b) b\n\tCCNOT a b c"],
         // calibrations that differ only in modifiers / parameters' syntax / qubit kind: all distinct keys
         vec!["DEFCAL RX(pi) 0:\n\tX 30", "DEFCAL DAGGER RX(pi) 0:\n\tX 31"],
         vec!["DEFCAL DAGGER X 0 1:\n\tX 23", "DEFCAL CONTROLLED X 0 1:\n\tX 24", "DEFCAL X 0 1:\n\tX 22"],
@@ -156,6 +172,40 @@ fn run(ctx: &mut Ctx) {
                 k -= 1;
                 idx[k] += 1;
                 if idx[k] < alphabet.len() {
+                    break;
+                }
+                idx[k] = 0;
+            }
+        }
+    }
+
+    // (2b) exhaustive histories over PRAGMA EXTERN shapes (key = first argument if identifier, else none)
+    let ext_alphabet: Vec<Instruction> = [
+        "PRAGMA EXTERN foo \"INTEGER (x : INTEGER)\"",
+        "PRAGMA EXTERN foo legacy \"(c : REAL)\"",
+        "PRAGMA EXTERN bar legacy \"(c : REAL)\"",
+        "PRAGMA EXTERN foo 1 \"INTEGER (x : INTEGER)\"",
+        "PRAGMA EXTERN 1 foo \"(c : REAL)\"",
+        "PRAGMA EXTERN \"OCTET\"",
+        "PRAGMA EXTERN bar",
+    ]
+    .iter()
+    .map(|t| one(t))
+    .collect();
+    for len in 1..=max_len {
+        let mut idx = vec![0usize; len];
+        'outer2: loop {
+            let is: Vec<Instruction> = idx.iter().map(|&k| ext_alphabet[k].clone()).collect();
+            let path = PATHS[idx.iter().sum::<usize>() % 5];
+            emit(ctx, path, is);
+            let mut k = len;
+            loop {
+                if k == 0 {
+                    break 'outer2;
+                }
+                k -= 1;
+                idx[k] += 1;
+                if idx[k] < ext_alphabet.len() {
                     break;
                 }
                 idx[k] = 0;
